@@ -87,8 +87,12 @@ def make_policy(spec, kinds_out):
     return policy
 
 
-def execute(spec, opts, rng, *, client_seg="whole", server_seg="whole", schedule="fifo", extra_policy=None, m3=(), open_plan=None, max_steps=3000):
-    """Run one execution of spec. Returns (driver, info)."""
+def execute(spec, opts, rng, *, client_seg="whole", server_seg="whole", schedule="fifo", extra_policy=None, m3=(), open_plan=None, max_steps=3000,
+            client_cut=None, server_cut=None, client_eof=False, addons=None):
+    """Run one execution of spec. Returns (driver, info).
+    Faults: client_cut=o  -> the client sends only the first o bytes, then closes;
+            server_cut=(k, o) -> the k-th response written by any origin is truncated to o bytes, then the origin closes;
+            client_eof -> client half-closes after its last byte (instead of staying open until teardown)."""
     mode = spec["mode"]
     reqs = spec["reqs"]
     resp_feats = set()
@@ -98,8 +102,12 @@ def execute(spec, opts, rng, *, client_seg="whole", server_seg="whole", schedule
         tag = m.group(0) if m else b"unknown"
         rs = response_for(spec, tag, msg["method"])
         resp_feats.update(rs["feats"])
+        nresp[0] += 1
+        if server_cut is not None and server_cut[0] == nresp[0] - 1:
+            return rs["raw"][: server_cut[1]], True
         return rs["raw"], rs["close_after"]
 
+    nresp = [0]
     kinds = set()
     base_policy = make_policy(spec, kinds)
 
@@ -117,7 +125,7 @@ def execute(spec, opts, rng, *, client_seg="whole", server_seg="whole", schedule
         client=client,
         options=opts,
         rng=rng,
-        addons=[ForceHttp()],
+        addons=addons if addons is not None else [ForceHttp()],
         policy=policy,
         server_factory=lambda drv, conn: peers.H1ServerPeer(responder, rng, server_seg),
         schedule=schedule,
@@ -129,7 +137,11 @@ def execute(spec, opts, rng, *, client_seg="whole", server_seg="whole", schedule
     if mode == "transparent":
         d.context.server.address = ("example.com", 80)
     stream = b"".join(q["raw"] for q in reqs)
+    if client_cut is not None:
+        stream = stream[:client_cut]
     segs = peers.cut(stream, rng, client_seg)
+    if client_cut is not None or client_eof:
+        segs = segs + [sansio.EOF]
     d.attach_client_peer(sansio.ScriptPeer(segs))
     d.start()
     d.run()
